@@ -5,9 +5,11 @@ Import ListNotations.
 Require Import Verif.Db.Depth Verif.Db.Script Verif.Gen.DbTables.
 
 Lemma source_shape :
-  (table_order, column_order, delta_cfg) = (ByLineName, ByLineName, DCfg RefRefRetarget PkNonEmpty AutoVtBigint).
+  (depth_stop, table_order, column_order, delta_cfg) =
+  (StopNoProgress, ByLineName, ByLineName, DCfg RefRefRetarget PkNonEmpty AutoVtBigint).
 Proof. reflexivity. Qed.
 
+Lemma depth_stop_is : depth_stop = StopNoProgress. Proof. reflexivity. Qed.
 Lemma table_order_is : table_order = ByLineName. Proof. reflexivity. Qed.
 Lemma column_order_is : column_order = ByLineName. Proof. reflexivity. Qed.
 Lemma delta_cfg_is : delta_cfg = DCfg RefRefRetarget PkNonEmpty AutoVtBigint. Proof. reflexivity. Qed.
